@@ -412,6 +412,31 @@ Denotations(cfg, lines) == { Outcome(s) : s \in RunLines(StartsFor(cfg, lines), 
 DenotationsAllPolicies(cfg, lines) == { Outcome(s) : s \in RunLines(Starts(cfg), cfg, lines, 1, 0) }
 
 -----------------------------------------------------------------------------
+(* The initial origin as the caller states it: TEXT (the quantifier of C07 is  *)
+(* "any origin").  "" = none.  Otherwise the text is made fully qualified (a   *)
+(* relative one can only be completed with the root) and read as a name.  A    *)
+(* text that is not a domain name -- empty label, label > 63, name > 255 -- is *)
+(* the parser's first problem: it is in the error state before the first line  *)
+(* is read, so it returns no record and opens no file, whatever the zone says. *)
+(* st: "ok" | "err" | "amb" (\DDD > 255, a dangling backslash: not stated)     *)
+OriginOfText(t) ==
+  IF t = <<>> THEN [st |-> "ok", origin |-> NoName]
+  ELSE LET p == Parse(FqdnSpec(t)) IN
+       IF p.st = "undef" THEN [st |-> "amb", origin |-> NoName]                      \* AMBIG
+       ELSE IF p.st # "ok" \/ ~ValidName(p.labels) THEN [st |-> "err", origin |-> NoName]
+       ELSE IF ~p.fq THEN [st |-> "amb", origin |-> NoName]                           \* AMBIG
+       ELSE [st |-> "ok", origin |-> Name(p.labels)]
+
+\* a parser state that is in error before any line (errln = 0: the error belongs to no line)
+FailedStart(cfg, pol) == ErrAt(StartP(cfg, pol), 0)
+\* everything a file may denote under a configuration whose initial origin is given as text
+DenotationsO(cfg, otext, lines) ==
+  LET o == OriginOfText(otext) IN
+  IF o.st = "err" THEN { Outcome(s) : s \in RunLines({ FailedStart(cfg, pol) : pol \in Policies }, cfg, lines, 1, 0) }
+  ELSE IF o.st = "amb" THEN { Outcome(Undef(StartP(cfg, pol))) : pol \in Policies }
+  ELSE Denotations([cfg EXCEPT !.origin = o.origin], lines)
+
+-----------------------------------------------------------------------------
 (* A canonical spelling of every abstract line, and two rewritings of a file   *)
 (* that must not change what it denotes (they drive the "equivalent spellings" *)
 (* of the binding: everything explicit / everything that can be omitted).      *)
@@ -526,6 +551,13 @@ Becomes(s) == /\ origin' = s.origin /\ lastOwner' = s.lastOwner /\ dirTTL' = s.d
 ZInit(c) == /\ cfg = c /\ nline = 0 /\ pol \in Policies
             /\ origin = c.origin /\ lastOwner = NoName /\ dirTTL = NoTTL /\ lastTTL = NoTTL
             /\ out = <<>> /\ err = FALSE /\ errln = 0 /\ undef = FALSE /\ opens = <<>> /\ depth = 0 /\ dir = DirOfFile(c.file)
+
+\* the machine started from an initial origin given as text (see OriginOfText): a bad one starts it in the error state
+ZInitO(c, otext) ==
+  LET o == OriginOfText(otext) IN
+  /\ cfg = [c EXCEPT !.origin = o.origin] /\ nline = 0 /\ pol \in Policies
+  /\ origin = o.origin /\ lastOwner = NoName /\ dirTTL = NoTTL /\ lastTTL = NoTTL
+  /\ out = <<>> /\ err = (o.st = "err") /\ errln = 0 /\ undef = (o.st = "amb") /\ opens = <<>> /\ depth = 0 /\ dir = DirOfFile(c.file)
 
 Do(line) == /\ nline' = nline + 1 /\ UNCHANGED <<cfg, pol>>
             /\ \E s \in Step(Cur, cfg, line, nline + 1) : Becomes(s)
